@@ -446,10 +446,11 @@ class _IncomingPacketHandler(Thread):
 
     def run(self):
         while True:
-            if self.cf.link is None:
+            link = self.cf.link
+            if link is None:
                 time.sleep(1)
                 continue
-            pk = self.cf.link.receive_packet(1)
+            pk = link.receive_packet(1)
 
             if pk is None:
                 continue
